@@ -333,8 +333,13 @@ def run_property(prop, tier, seed, mods, jobs=16, only='', rebaseline=False, t0=
     if n_eval:
         ev['coverage']['distinct_nontrivial'] = sum(b.get('distinct_nontrivial', 0) for b in bounded)
         ev['coverage']['rule'] = '; '.join(b.get('rule', '') for b in bounded if b.get('rule'))
-    os.makedirs(os.path.join(VERIF, 'evidence'), exist_ok=True)
-    evpath = os.path.join(VERIF, 'evidence', f'{prop}.json')
+    # the evidence file describes a full run on /repo; partial runs (--only) and runs on a scratch tree (T4GC_REPO, used
+    # to try seeded changes) write theirs next to the replay files instead
+    evdir = os.path.join(VERIF, 'evidence')
+    if only or os.path.abspath(os.environ.get('T4GC_REPO', '/repo')) != '/repo':
+        evdir = os.path.join(VERIF, 'replay', 'evidence-of-partial-or-scratch-runs')
+    os.makedirs(evdir, exist_ok=True)
+    evpath = os.path.join(evdir, f'{prop}.json')
     with open(evpath, 'w') as f:
         json.dump(ev, f, indent=1, default=str)
     try:
